@@ -65,6 +65,9 @@ class Ctx:
                 for r in ex.map(_worker.call, [func] * len(argslist), argslist,
                                 chunksize=chunksize):
                     results.append(r)
+        if os.environ.get("VERIF_DEBUG"):
+            print("  pmap %s %s: %d jobs, %.1fs since start" % (
+                envd.get("fw"), func, len(argslist), time.time() - self.t0), flush=True)
         if merge:
             for r in results:
                 self.absorb(r)
